@@ -119,6 +119,7 @@ HelperOK(r) ==
     [] fn = "MinMax" -> NoPanic(r) /\ out = <<Min(r.x, r.y), Max(r.x, r.y)>>
     \* ---- xerrors: out = <<depth before, after one WithStack, after two, Is-all, As, Unwrap-ok, message non-empty>>
     [] fn = "WithStackNil" -> NoPanic(r) /\ r.r = 1
+    [] fn = "WithStackDeep" -> NoPanic(r) /\ r.r = 1      \* the added stack names WithStack's caller and the frames above it, at any depth
     [] fn = "WithStack" ->
          /\ NoPanic(r)
          /\ out[2] = (IF r.y = 1 THEN out[1] ELSE out[1] + 1)     \* adds one layer unless a stack is already attached
